@@ -106,11 +106,16 @@ func genDelete(s *core.Sim, m *StoreModel, allowWipe bool) (from, to uint64) {
 func runC04(s *core.Sim, tier string) RunInfo {
 	w := newSW(s, false)
 	// second configuration: disk latency stalls (no errors; model equality stays exact)
-	if s.Tape.Coin("stalls", 1, 3) {
+	stalls := s.Tape.Coin("stalls", 1, 3)
+	if stalls {
+		// stall decisions come from the disk's own stream (seeded from the tape):
+		// they are drawn inside go-header's goroutines and must not interleave
+		// with the draws of the root goroutine.
+		rng := core.NewTape(uint64(s.Tape.Draw("stall-seed", 1<<30)))
 		w.Disk.Latency = func(op string) time.Duration {
-			if s.Tape.Coin("stall", 1, 8) {
+			if rng.Coin("stall", 1, 8) {
 				s.Fault("disk-latency-stall")
-				return time.Duration(1+s.Tape.Draw("stall-ms", 5000)) * time.Millisecond
+				return time.Duration(1+rng.Draw("stall-ms", 5000)) * time.Millisecond
 			}
 			return 0
 		}
@@ -137,7 +142,7 @@ func runC04(s *core.Sim, tier string) RunInfo {
 		}
 	}()
 	for i := 0; i < nops && !s.Failed(); i++ {
-		switch core.Pick(s.Tape, "op", []string{"append", "append", "append", "check", "delete", "restart", "sync"}) {
+		switch core.Pick(s.Tape, "op", []string{"append", "append", "append", "check", "delete", "restart", "sync", "peek", "peek"}) {
 		case "append":
 			from, to, kind := genAppend(s, w, m)
 			hist = append(hist, fmt.Sprintf("append %d..%d (%s)", from, to, kind))
@@ -152,6 +157,12 @@ func runC04(s *core.Sim, tier string) RunInfo {
 			if err := w.Sync(); err != nil {
 				s.Violate("sync-error", nil, "Sync: %v", err)
 			}
+		case "peek":
+			if stalls {
+				continue // a stalled flush is still in flight: not idle, nothing to peek at
+			}
+			hist = append(hist, "peek")
+			w.peekStore(m, fmt.Sprintf("after op %d", i))
 		case "check":
 			hist = append(hist, "check")
 			w.checkStore(m, fmt.Sprintf("after op %d", i))
